@@ -148,10 +148,9 @@ Qed.
 
 Lemma P_fresh_output_compiles : forall p T fl g,
   enum_guard p T = true -> generate p T fl = Some g ->
-  f_bit fl && shadow_i T = false ->
   compiles (const_env p) g false = true.
 Proof.
-  intros p T fl g Hgd Hgen Hrecv. ctx Hgd Hgen k Hg Hk. apply fresh_compiles; assumption.
+  intros p T fl g Hgd Hgen. ctx Hgd Hgen k Hg Hk. apply fresh_compiles; assumption.
 Qed.
 
 (* ======================================================================= C12 *)
@@ -302,14 +301,14 @@ Qed.
 (* String() of a union of declared single-bit flags whose union is not itself
    declared: their names in ascending flag order, joined by ", " *)
 Lemma P_bit_string_union : forall p T fl g (names : list string) (S : list Z),
-  enum_guard p T = true -> generate p T fl = Some g -> f_bit fl = true -> shadow_v T = false ->
+  enum_guard p T = true -> generate p T fl = Some g -> f_bit fl = true ->
   Forall (fun v => 0 <= v) (map snd (declared T p)) ->
   S <> [] -> StronglySorted Z.lt S -> Forall single_bit S ->
   Forall2 (fun n s => In (n, s) (declared T p)) names S ->
   ~ In (lor_all S) (map snd (declared T p)) ->
   str_of (const_env p) g (lor_all S) = join ", " (map (fun n => trim_prefix n T) names).
 Proof.
-  intros p T fl g names S Hgd Hgen Hbit Hsv Hnn Hne Hsorted Hsb Hnames Hnot.
+  intros p T fl g names S Hgd Hgen Hbit Hnn Hne Hsorted Hsb Hnames Hnot.
   ctx Hgd Hgen k Hg Hk.
   assert (Hincl : incl S (t_values (const_env p) (make_str p T k fl))).
   { intros s Hs. apply (values_in p T k fl Hg Hk).
@@ -329,18 +328,18 @@ Qed.
 
 (* anything else: decimal *)
 Lemma P_bit_string_other : forall p T fl g x,
-  enum_guard p T = true -> generate p T fl = Some g -> shadow_v T = false ->
+  enum_guard p T = true -> generate p T fl = Some g ->
   bits_declared (map snd (declared T p)) ->
   ~ In x (map snd (declared T p)) ->
   (x < 0 \/ x = 0 \/ exists i, 0 <= i /\ Z.testbit x i = true /\ ~ In (2 ^ i) (map snd (declared T p))) ->
   str_of (const_env p) g x = dec x.
 Proof.
-  intros p T fl g x Hgd Hgen Hsv [Hnn Hbd] Hnot Hcase. ctx Hgd Hgen k Hg Hk.
+  intros p T fl g x Hgd Hgen [Hnn Hbd] Hnot Hcase. ctx Hgd Hgen k Hg Hk.
   assert (Hnot' : ~ In x (t_values (const_env p) (make_str p T k fl))).
   { intros Hin. apply Hnot. apply (values_in p T k fl Hg Hk). exact Hin. }
   destruct Hcase as [Hneg | [Hz | [i [Hi [Hb Hund]]]]].
   - apply str_of_negative; assumption.
-  - subst x. apply str_of_zero; [exact Hsv | exact Hnot'].
+  - subst x. apply str_of_zero. exact Hnot'.
   - apply (str_of_undeclared_bit (const_env p) (make_str p T k fl) x i); try assumption.
     + split.
       * apply Forall_forall. intros v Hv. apply (values_in p T k fl Hg Hk) in Hv.
